@@ -109,6 +109,15 @@ CHECKS = {
    note="Codecs are combinational (time axis belongs to the harness); for large k sufficiency of the basis rests on "
         "linearity of the code.",
    tech="deterministic simulation with enumerated stored-bit-flip injection (all single and double positions)"),
+ "C19": dict(cat="exploration", ref="DESIGN.md 5.C19",
+   text="Real RS232PHYTX / RS232PHYRX, SPIMaster (raw/aligned, dividers 2-16, manual CS, loopback), Timer and Watchdog (through a "
+        "real CSRBank) and PWM against independent pin-level peers: a UART receiver checking frame structure and bit-edge "
+        "timing, a UART transmitter on its own clock (rate skew up to +-2%, literal sub-cycle phase, literal old/new resolution "
+        "of every edge, bad stop bits), a mode-0 SPI device; start requests at literal instants relative to the divider phase "
+        "incl. back-to-back and overlapping ones; cycle-exact timer/watchdog/PWM models; return to idle demanded. Sampling.",
+   note="I2C master, SPISlave, the UART FIFO/CSR wrapper and timeline are not covered yet. Known finding C19-F1 (SPI length read "
+        "live). The +-2% UART tolerance is demanded for bit periods >= 16 cycles.",
+   tech="deterministic simulation with pin-level peers on skewed clocks, phase/edge-resolution faults, overlapping commands, cycle-exact models"),
 }
 
 NOT_APPLICABLE = {
